@@ -56,7 +56,9 @@ __CPROVER_requires(__CPROVER_is_fresh(out, sizeof(H3Index) * (k <= 0 ? 1 : 6 * (
 __CPROVER_assigns(__CPROVER_object_whole(out))
 __CPROVER_ensures(__CPROVER_return_value <= 15)
 __CPROVER_ensures(k < 0 ==> __CPROVER_return_value == S_ERR_DOMAIN)
-__CPROVER_ensures(k == 0 ==> (__CPROVER_return_value == S_ERR_SUCCESS && out[0] == origin));
+__CPROVER_ensures(k == 0 ==> (__CPROVER_return_value == S_ERR_SUCCESS && out[0] == origin))
+/* a ring that touches a pentagon is reported as an error, never returned (h3v_g: universally quantified slot) */
+__CPROVER_ensures((k >= 1 && __CPROVER_return_value == S_ERR_SUCCESS && 0 <= h3v_g && h3v_g < 6 * (int64_t)k) ==> !S_IS_PENT(out[h3v_g]));
 
 /* ---- local IJ / distance / path: argument clauses */
 H3Error cellToLocalIjk_frame(H3Index origin, H3Index h3, CoordIJK *out)
@@ -86,10 +88,22 @@ __CPROVER_assigns(*out)
 __CPROVER_ensures(__CPROVER_return_value <= 15)
 __CPROVER_ensures(mode != 0 ==> (__CPROVER_return_value == S_ERR_OPTION_INVALID && *out == __CPROVER_old(*out)));
 
+/* cellToLocalIjk's error code as a deterministic function of its arguments; differing resolutions are a mismatch
+ * (that clause is enforced on the real cellToLocalIjk by job c09.cellToLocalIjk.safe) */
+H3Error __CPROVER_uninterpreted_lijk_err(H3Index origin, H3Index h3);
+H3Error cellToLocalIjk_uf(H3Index origin, H3Index h3, CoordIJK *out)
+__CPROVER_requires(__CPROVER_rw_ok(out, sizeof(CoordIJK)))
+__CPROVER_assigns(*out)
+__CPROVER_ensures(__CPROVER_return_value == __CPROVER_uninterpreted_lijk_err(origin, h3) && __CPROVER_return_value <= 15)
+__CPROVER_ensures(S_RES(origin) != S_RES(h3) ==> __CPROVER_return_value == S_ERR_RES_MISMATCH);
 H3Error gridDistance_contract(H3Index origin, H3Index index, int64_t *out)
 __CPROVER_requires(__CPROVER_is_fresh(out, sizeof(int64_t)))
 __CPROVER_assigns(*out)
 __CPROVER_ensures(__CPROVER_return_value <= 15)
+/* differing resolutions: E_RES_MISMATCH (unless the origin itself is already rejected) */
+__CPROVER_ensures(S_RES(origin) != S_RES(index) ==>
+                  __CPROVER_return_value == (__CPROVER_uninterpreted_lijk_err(origin, origin) != 0 ? __CPROVER_uninterpreted_lijk_err(origin, origin)
+                                                                                                  : (H3Error)S_ERR_RES_MISMATCH))
 __CPROVER_ensures(__CPROVER_return_value == 0 ==> *out >= 0)
 __CPROVER_ensures(__CPROVER_return_value != 0 ==> *out == __CPROVER_old(*out));
 /* gridDistance as an opaque deterministic result (ghosts h3v_err / h3v_dist) for its callers */
